@@ -393,7 +393,7 @@ func (c *ClientConn) SendUpstreamMetadata(ctx context.Context, msg *message.Upst
 	if err != nil {
 		return nil, err
 	}
-	return res.(*message.UpstreamMetadataAck), nil
+	return responseAs[*message.UpstreamMetadataAck](res)
 }
 
 func (c *ClientConn) sendPing() (*message.Pong, error) {
@@ -405,7 +405,7 @@ func (c *ClientConn) sendPing() (*message.Pong, error) {
 	if err != nil {
 		return nil, err
 	}
-	return resp.(*message.Pong), nil
+	return responseAs[*message.Pong](resp)
 }
 
 // SubscribeUpstreamChunkAckは、UpstreamChunkAckを待ち受けます。
@@ -452,7 +452,10 @@ func (c *ClientConn) SendUpstreamOpenRequest(ctx context.Context, req *message.U
 		return nil, err
 	}
 
-	res := resp.(*message.UpstreamOpenResponse)
+	res, err := responseAs[*message.UpstreamOpenResponse](resp)
+	if err != nil {
+		return nil, err
+	}
 	c.openUpstream(ctx, req.QoS, res.AssignedStreamID, res.AssignedStreamIDAlias)
 
 	return res, nil
@@ -468,7 +471,10 @@ func (c *ClientConn) SendUpstreamResumeRequest(ctx context.Context, req *message
 		return nil, err
 	}
 
-	res := resp.(*message.UpstreamResumeResponse)
+	res, err := responseAs[*message.UpstreamResumeResponse](resp)
+	if err != nil {
+		return nil, err
+	}
 
 	c.openUpstream(ctx, qoS, req.StreamID, res.AssignedStreamIDAlias)
 
@@ -493,11 +499,15 @@ func (c *ClientConn) SendUpstreamCloseRequest(ctx context.Context, req *message.
 	if err != nil {
 		return nil, err
 	}
+	res, err := responseAs[*message.UpstreamCloseResponse](resp)
+	if err != nil {
+		return nil, err
+	}
 	c.upstreams.mu.Lock()
 	defer c.upstreams.mu.Unlock()
 	alias, ok := c.upstreams.aliases[req.StreamID]
 	if !ok {
-		return resp.(*message.UpstreamCloseResponse), nil
+		return res, nil
 	}
 
 	delete(c.upstreams.aliases, req.StreamID)
@@ -510,7 +520,7 @@ func (c *ClientConn) SendUpstreamCloseRequest(ctx context.Context, req *message.
 		delete(c.upstreams.messageWriters, alias)
 	}
 
-	return resp.(*message.UpstreamCloseResponse), nil
+	return res, nil
 }
 
 // SubscribeDownstreamChunkは、指定したストリームIDエイリアス、QoSのDownstreamChunkを待ち受けます。
@@ -593,7 +603,10 @@ func (c *ClientConn) SendDownstreamResumeRequest(ctx context.Context, req *messa
 	if err != nil {
 		return nil, err
 	}
-	resp := res.(*message.DownstreamResumeResponse)
+	resp, err := responseAs[*message.DownstreamResumeResponse](res)
+	if err != nil {
+		return nil, err
+	}
 
 	c.downstreams.mu.Lock()
 	defer c.downstreams.mu.Unlock()
@@ -609,7 +622,10 @@ func (c *ClientConn) SendDownstreamOpenRequest(ctx context.Context, req *message
 	if err != nil {
 		return nil, err
 	}
-	resp := res.(*message.DownstreamOpenResponse)
+	resp, err := responseAs[*message.DownstreamOpenResponse](res)
+	if err != nil {
+		return nil, err
+	}
 
 	c.downstreams.mu.Lock()
 	defer c.downstreams.mu.Unlock()
@@ -625,12 +641,16 @@ func (c *ClientConn) SendDownstreamCloseRequest(ctx context.Context, req *messag
 	if err != nil {
 		return nil, err
 	}
+	res, err := responseAs[*message.DownstreamCloseResponse](resp)
+	if err != nil {
+		return nil, err
+	}
 	c.downstreams.mu.Lock()
 	defer c.downstreams.mu.Unlock()
 
 	alias, ok := c.downstreams.aliases[req.StreamID]
 	if !ok {
-		return resp.(*message.DownstreamCloseResponse), nil
+		return res, nil
 	}
 	delete(c.downstreams.aliases, req.StreamID)
 
@@ -650,7 +670,7 @@ func (c *ClientConn) SendDownstreamCloseRequest(ctx context.Context, req *messag
 		delete(c.downstreams.metadata, alias)
 	}
 
-	return resp.(*message.DownstreamCloseResponse), nil
+	return res, nil
 }
 
 // SendDownstreamDataPointsAckは、DownstreamMetadataAckを送信します。
@@ -696,6 +716,17 @@ func (c *ClientConn) ReceiveDownstreamCall(ctx context.Context) (*message.Downst
 		}
 		return msg, nil
 	}
+}
+
+// responseAs converts the response routed to a request into the type the caller expects.
+// A broker answering with another message type under the same request id must not crash the caller.
+func responseAs[T message.Request](resp message.Request) (T, error) {
+	v, ok := resp.(T)
+	if !ok {
+		var zero T
+		return zero, errors.Errorf("unexpected response %T: %w", resp, errors.ErrMalformedMessage)
+	}
+	return v, nil
 }
 
 func (c *ClientConn) sendRequest(ctx context.Context, req message.Request) (message.Request, error) {
